@@ -70,6 +70,18 @@ def gen_native(ctx):
                     ops.append("rt %s %s %s %s %d %d %s" % (fmt, pix, org, DEVS[(w + h + i) % 4], w, h, content(r, "random", w, h, nch, 1, maxv)))
                 for i, dev in enumerate(DEVS):      # every destination kind at every size
                     ops.append("rt %s %s il %s %d %d %s" % (fmt, pix, dev, w, h, content(r, KINDS[(w + 2 * h + i) % len(KINDS)], w, h, nch, 1, maxv)))
+        # every destination kind receives the same bytes (one op writes through all four)
+        for w in range(1, hi + 1):
+            for h in range(1, hi + 1):
+                ops.append("dsts %s %s %d %d %s" % (fmt, pix, w, h, content(r, KINDS[(w + h) % len(KINDS)], w, h, nch, 1, maxv)))
+        # shapes whose header fields / file size leave one byte (>= 256) and two bytes (file >= 65536): every destination kind
+        big = [(256, 2), (2, 256), (257, 3)] + ([(300, 260)] if pix in ("rgb8", "gray8") else [(70, 260)])
+        if pix == "gray1": big = [(256, 2), (2, 256), (264, 3)]
+        for (w, h) in big:
+            hx = content(r, "checker" if pix == "gray1" else "index", w, h, nch, 1, maxv)
+            ops.append("dsts %s %s %d %d %s" % (fmt, pix, w, h, hx))
+            for dev in DEVS:
+                ops.append("rt %s %s il %s %d %d %s" % (fmt, pix, dev, w, h, hx))
         if ctx.thorough():
             for w in range(1, 41):
                 for h in range(1, 41):
@@ -132,7 +144,7 @@ def tree_variants(ctx):
 
 def route(op):
     w = op.split()
-    if w[0] == "rt": return "n%d" % next(s for f, p, n, s in NATIVE if (f, p) == (w[1], w[2][:5] if w[2].startswith("gray1") else w[2]))
+    if w[0] in ("rt", "dsts"): return "n%d" % next(s for f, p, n, s in NATIVE if (f, p) == (w[1], w[2][:5] if w[2].startswith("gray1") else w[2]))
     if w[0] == "jpg": return "x8"
     if w[1] == "png": return "x%d" % PNG[w[2]][4]
     return "x%d" % TIFF[w[2]][4]
@@ -143,7 +155,7 @@ def specs():
 
 def nontrivial(op):
     w = op.split()
-    k = 4 if w[0] == "jpg" else 5
+    k = 4 if w[0] == "jpg" else 3 if w[0] == "dsts" else 5
     return int(w[k]) * int(w[k + 1]) > 1
 
 ASSUME = [
@@ -164,11 +176,11 @@ def run(ctx, ops=None):
     if ops is None:
         nat, ext, jpg = gen_native(ctx), gen_ext(ctx), gen_jpeg(ctx)
     else:
-        nat = [o for o in ops if o.startswith("rt ")]; ext = [o for o in ops if o.startswith("rtx ")]; jpg = [o for o in ops if o.startswith("jpg ")]
+        nat = [o for o in ops if o.startswith("rt ") or o.startswith("dsts ")]; ext = [o for o in ops if o.startswith("rtx ")]; jpg = [o for o in ops if o.startswith("jpg ")]
     gray1, tiled_cs = tree_variants(ctx)
     if gray1 != "gray1" or tiled_cs: ctx.notes.append("tree under test carries proposed fixes: pnm gray1 variant %s, tiled tiff colour-space order %s" % (gray1, tiled_cs))
     if ops is None or True:
-        nat = [o.replace(" pnm gray1 ", " pnm %s " % gray1, 1) if o.startswith("rt pnm gray1 ") else o for o in nat]
+        nat = [o.replace(" pnm gray1 ", " pnm %s " % gray1, 1) if (o.startswith("rt pnm gray1 ") or o.startswith("dsts pnm gray1 ")) else o for o in nat]
         if tiled_cs: ext = [(lambda w: " ".join([w[0], w[1] + "-cs"] + w[2:]))(o.split()) if o.startswith("rtx tiff-tile") and "-cs" not in o.split()[1] else o for o in ext]
     args = (ctx.scratch,)
     for label, group, has_model in (("native", nat, True), ("ext", ext, True), ("jpeg", jpg, False)):
